@@ -23,8 +23,10 @@ Brk == [k |-> "break"]
 Cont == [k |-> "continue"]
 Ext == [k |-> "exit"]
 Ret(e) == [k |-> "return", e |-> e]
-Func(f, p, body) == [k |-> "func", f |-> f, p |-> p, body |-> body, q |-> "", d |-> L(0)]
-Func2(f, p, q, d, body) == [k |-> "func", f |-> f, p |-> p, body |-> body, q |-> q, d |-> d]
+Func(f, p, body) == [k |-> "func", f |-> f, p |-> p, body |-> body, q |-> "", d |-> L(0), agg |-> FALSE]
+AggF(f) == [k |-> "func", f |-> f, p |-> "", body |-> <<>>, q |-> "", d |-> L(0), agg |-> TRUE]
+AggQ(f, t) == [k |-> "aggq", f |-> f, t |-> t]
+Func2(f, p, q, d, body) == [k |-> "func", f |-> f, p |-> p, body |-> body, q |-> q, d |-> d, agg |-> FALSE]
 WhileIn(x, decl, c, body) == [k |-> "whilein", x |-> x, decl |-> decl, c |-> c, body |-> body]
 
 CurDecl(c, v) == [k |-> "curdecl", c |-> c, vs |-> <<v>>]
@@ -92,7 +94,14 @@ Sk12 == {<<VarS("@a", L(0)), Fact,
 Sk13 == {<<VarS("@a", L(0)), VarS("@x", L(0)), CurDeclN("c", <<1, 2, 3>>), WhileIn("@x", d, "c", <<h1, h2>>), Pr(Vr("@a")), Pr(Vr("@x")), CurUse("c", "@a"), Pr(Vr("@a"))>>
          : h1, h2 \in InCurLoop \cup {Ext}, d \in BOOLEAN}
 
-Programs == Sk11 \cup Sk12 \cup Sk13 \cup Sk1 \cup Sk2 \cup Sk3 \cup Sk4 \cup Sk5 \cup Sk6 \cup Sk7 \cup Sk8 \cup Sk9 \cup Sk10
+\* a scalar and an aggregate function of one name in nested blocks: the innermost declaration decides what f(n) in a query means
+FDecls == { AggF("f"), Func("f", "@p", <<Ret(Add(Vr("@p"), L(1)))>>), Func("f", "@p", <<Pr(Vr("@p")), Ret(L(9))>>), Pr(L(0)) }
+Sk14 == {<<h1, TabDecl("tt", 5), If1(Lt(L(0), L(1)), <<h2, Pr(AggQ("f", "tt")), Pr(CallF("f", L(3)))>>), Pr(AggQ("f", "tt")), Pr(CallF("f", L(3))), h3, Pr(AggQ("f", "tt"))>>
+         : h1, h2, h3 \in FDecls}
+Sk15 == {<<h1, TabDecl("tt", 5), Func("g", "@q", <<h2, Ret(AggQ("f", "tt"))>>), Pr(CallF("g", L(0))), h3, Pr(CallF("g", L(0))), Pr(AggQ("f", "tt"))>>
+         : h1, h2, h3 \in FDecls}
+
+Programs == Sk14 \cup Sk15 \cup Sk11 \cup Sk12 \cup Sk13 \cup Sk1 \cup Sk2 \cup Sk3 \cup Sk4 \cup Sk5 \cup Sk6 \cup Sk7 \cup Sk8 \cup Sk9 \cup Sk10
 
 CONSTANTS Fuel, ProgSet      \* ProgSet: the programs of this run (all families, or one)
 VARIABLE prog
